@@ -1,7 +1,189 @@
-"""C11 — not implemented yet (fail closed)."""
-from ..model import AnalysisError
+"""C11 Shadow answers exact on group-free entries; ACL report follows its spec (skip combinations, attribution)."""
+
+from __future__ import annotations
+
+import ast
+from typing import Dict, List, Optional, Set, Tuple
+
+from ..cfg import Node
+from ..core import Ctx, Report, snippet, where
+from ..model import Func, own_nodes, src
+from .c03 import SIBLINGS, helper_for_field, r03_1, r03_2, r03_3
+from .common import chain, chains_in, mentions, names_in, norm_field, reachable_without_edges
+from .shading import analyse_shading, check_strictly_above
+
 PROPERTY = "C11"
 LEVEL = "other"
-EXPLANATION = "not implemented"
-def run(ctx, rep, tier):
-    raise AnalysisError("rules for C11 are not implemented yet")
+EXPLANATION = (
+    "Decides the skip-combination clause (skip options are independent and can only falsify), source/destination "
+    "agreement and conjunction completeness of the pairwise test, and the report bookkeeping of Acl.shading: tops are "
+    "visited in list order, an entry is recorded under the first top that covers it, only on a positive answer, at most "
+    "once. Does not decide completeness ('exactly when' the packet set is contained), which is a statement about values."
+)
+ASSUMPTIONS = ["the per-field cover tests are the ones analysed under C03"]
+
+
+def r11_3(ctx: Ctx, rep: Report) -> None:  # noqa: C901
+    rep.rule("R11.3")
+    sf = analyse_shading(ctx)
+    f, cfg = sf.f, sf.cfg
+    rep.instance()
+    if sf.probe is None or sf.outer is None or sf.inner is None:
+        rep.violation("Acl.shading", "attribution loop", "no nested top/bottom loop with a shadow_of test found", where(f))
+        return
+    P = sf.probe
+    bvar, tvar = src(sf.bottom), src(sf.top)
+    # result dict = the returned name
+    rets = [n for n in cfg.live if n.kind == "stmt" and isinstance(n.ast, ast.Return) and n.ast.value is not None]
+    dnames = {src(r.ast.value) for r in rets}
+    if len(dnames) != 1:
+        rep.violation("Acl.shading", "return", f"the report is not a single accumulated object: returns {sorted(dnames)}", where(f))
+        return
+    D = dnames.pop()
+    # ascending visit order
+    it = sf.outer.ast.iter  # type: ignore[union-attr]
+    it_s = src(it)
+    if "reversed" in it_s or "[::-1]" in it_s or "sorted" in it_s:
+        rep.violation("Acl.shading", f"for ... in {it_s}", "tops are not visited in list order: an entry would be attributed to a later covering entry", where(f, it))
+    else:
+        rep.ok(f"Acl.shading: for ... in {it_s}", "tops visited in ascending list order", where=where(f, it))
+    # append sites
+    appends: List[Tuple[Node, ast.AST, ast.AST]] = []
+    for n in cfg.live:
+        if n.kind != "stmt" or not isinstance(n.ast, ast.Expr) or not isinstance(n.ast.value, ast.Call):
+            continue
+        c = n.ast.value
+        if isinstance(c.func, ast.Attribute) and c.func.attr in ("append", "add", "extend") and c.args:
+            recv = c.func.value
+            key = None
+            if isinstance(recv, ast.Call) and isinstance(recv.func, ast.Attribute) and recv.func.attr in ("setdefault", "get") and src(recv.func.value) == D and recv.args:
+                key = recv.args[0]
+            elif isinstance(recv, ast.Subscript) and src(recv.value) == D:
+                key = recv.slice
+            if key is not None:
+                appends.append((n, key, c.args[0]))
+    # direct stores D[k] = [...]
+    if not appends:
+        rep.violation("Acl.shading", f"report {D}", "no statement records a bottom entry under its top in the returned report", where(f))
+        return
+    # recorder set
+    guards: List[Tuple[Node, ast.AST, str]] = []  # cond node, tested expr, set name
+    for c in cfg.live:
+        if c.kind == "cond" and isinstance(c.ast, ast.Compare) and len(c.ast.ops) == 1 and isinstance(c.ast.ops[0], (ast.NotIn, ast.In)) and isinstance(c.ast.comparators[0], ast.Name):
+            if mentions(c.ast.left, bvar.split(".")[0]):
+                guards.append((c, c.ast.left, c.ast.comparators[0].id))
+    p_true = [s for lab, s in P.succ if lab == "T"]
+    inner_head = sf.inner
+    for node, key, val in appends:
+        cons = f"{D}[{snippet(key, 30)}] += {snippet(val, 30)}"
+        # (1) only on a positive answer
+        if node in reachable_without_edges(cfg, cfg.entry, {(P.id, "T")}):
+            rep.violation("Acl.shading", cons, "an entry is recorded on a path where no shadow_of answer was positive: the report lists entries nobody shadows", where(f, node.ast))
+            continue
+        # (2) key from top, value from bottom
+        if not (mentions(key, tvar.split(".")[0]) and mentions(val, bvar.split(".")[0])) or mentions(key, bvar.split(".")[0]):
+            rep.violation("Acl.shading", cons, f"the report must list the bottom entry ({bvar}) under its top ({tvar})", where(f, node.ast))
+            continue
+        # (3) guarded by "not yet recorded"
+        gs = [(g, e, s) for g, e, s in guards if g in cfg.reachable(p_true[0], labels_avoid=("exc",))] if p_true else []
+        held = {(g.id, "T" if isinstance(g.ast.ops[0], ast.NotIn) else "F") for g, _, _ in gs}
+        if not gs or node in reachable_without_edges(cfg, p_true[0], held):
+            rep.violation("Acl.shading", cons, "the entry is recorded without a 'not yet recorded' guard: it is listed under every covering top, not once under the first", where(f, node.ast))
+            continue
+        rep.ok(f"Acl.shading: {cons}", "recorded only after a positive answer and only if not yet recorded", where=where(f, node.ast))
+        # (4) recording post-dominates every positive answer
+        for g, e, sname in gs:
+            def is_rec(n: Node, sname=sname, e=e) -> bool:
+                if n.kind != "stmt" or not isinstance(n.ast, ast.Expr) or not isinstance(n.ast.value, ast.Call):
+                    return False
+                c = n.ast.value
+                return isinstance(c.func, ast.Attribute) and c.func.attr in ("add", "append") and src(c.func.value) == sname and c.args and src(c.args[0]) == src(e)
+
+            recs = [n for n in cfg.live if is_rec(n)]
+            if not recs:
+                rep.violation("Acl.shading", f"{sname}.add({snippet(e, 30)})", "the 'already recorded' set is never filled with what the guard tests", where(f, g.ast))
+                continue
+            already = {(g2.id, "F" if isinstance(g2.ast.ops[0], ast.NotIn) else "T") for g2, e2, s2 in gs if s2 == sname and src(e2) == src(e)}
+            escaped = False
+            if p_true and inner_head is not None and not is_rec(p_true[0]):
+                # reachable from the positive answer without recording and without learning "already recorded"
+                seen = set()
+                stack = [p_true[0]]
+                while stack:
+                    x = stack.pop()
+                    if x in seen or is_rec(x):
+                        continue
+                    seen.add(x)
+                    if x is inner_head:
+                        escaped = True
+                        break
+                    for lab, nx in x.succ:
+                        if lab == "exc" or (x.id, lab) in already:
+                            continue
+                        stack.append(nx)
+            if escaped:
+                rep.violation("Acl.shading", f"{sname}.add({snippet(e, 30)})", "a positive answer can continue to the next candidate without the entry being marked as recorded: a later top would list it again", where(f, recs[0].ast))
+            else:
+                rep.ok(f"Acl.shading: {sname}.add({snippet(e, 30)})", "post-dominates every positive answer", where=where(f, recs[0].ast))
+            # (5) the set lives across tops: initialised outside the loops
+            inits = [n for n in cfg.live if n.kind == "stmt" and isinstance(n.ast, (ast.Assign, ast.AnnAssign)) and sname in {t.id for t in ast.walk(n.ast.targets[0] if isinstance(n.ast, ast.Assign) else n.ast.target) if isinstance(t, ast.Name)}]
+            body = cfg.reachable([s for lab, s in sf.outer.succ if lab == "body"][0], labels_avoid=("exc",)) if [s for lab, s in sf.outer.succ if lab == "body"] else set()
+            body_only = {n for n in body if sf.outer in cfg.reachable(n, labels_avoid=("exc",))}
+            if any(n in body_only for n in inits):
+                rep.violation("Acl.shading", f"{sname} re-initialised inside the loop", "the 'already recorded' set is reset for every top: entries are listed under several tops", where(f, inits[0].ast))
+            elif inits:
+                rep.ok(f"Acl.shading: {sname} initialised once", "before the loop over tops", where=where(f, inits[0].ast))
+
+
+def r11_4(ctx: Ctx, rep: Report, helpers: Dict[str, Optional[Func]]) -> None:
+    rep.rule("R11.4")
+    for fld in ("_srcaddr", "_dstaddr"):
+        h = helpers.get(fld)
+        if h is None:
+            continue
+        other = h.params[1] if len(h.params) > 1 else "other"
+        cfg = ctx.cfg(h)
+        for c in cfg.live:
+            if c.kind != "cond" or not isinstance(c.ast, ast.Compare):
+                continue
+            t = c.ast
+            if not (len(t.ops) == 1 and isinstance(t.ops[0], ast.In) and isinstance(t.left, ast.Constant) and isinstance(t.left.value, str)):
+                continue
+            token = t.left.value
+            if token not in ("addrgroup", "nc_wildcard"):
+                continue
+            if not any(isinstance(x, ast.Name) and x.id.startswith("skip") or isinstance(x, ast.Name) and x.id == "options" for x in ast.walk(t.comparators[0])) and not isinstance(t.comparators[0], ast.Name):
+                continue
+            # skip-token test (right side is a plain local) vs. kind test (right side is a display of .type)
+            if not isinstance(t.comparators[0], ast.Name):
+                continue
+            rep.instance()
+            pres = [s for lab, s in c.succ if lab == "T"]
+            abse = [s for lab, s in c.succ if lab == "F"]
+            if not pres or not abse:
+                continue
+            region = cfg.reachable(pres[0], labels_avoid=("exc",)) - cfg.reachable(abse[0], labels_avoid=("exc",))
+            reads: Dict[str, Set[str]] = {"self": set(), other: set()}
+            for n in region:
+                if n.kind == "cond":
+                    for ch in chains_in(n.ast):
+                        if ch[0] in reads and len(ch) >= 3 and norm_field(h.cls, ch[1]) == fld:
+                            reads[ch[0]].add(ch[2].rstrip("()"))
+            want = "ipnet" if token == "nc_wildcard" else "type"
+            missing = [side for side in ("self", other) if want not in reads[side] and not (token == "nc_wildcard" and "type" in reads[side] and "ipnet" in reads[side])]
+            if missing:
+                rep.violation(h.qualname, f"skip {token!r} region", f"the skipped address kind is not examined on {' and '.join(missing)} via .{want}: the answer is not forced to False whenever a skipped kind is involved", where(h, c.ast))
+            else:
+                rep.ok(f"{h.qualname}: skip {token!r}", f"reads .{want} of {fld} on self and {other}", where=where(h, c.ast))
+    rep.floor(4, "skip-token regions")
+
+
+def run(ctx: Ctx, rep: Report, tier: str) -> None:
+    fields = r03_1(ctx, rep, rid="R11.2")
+    helpers = {f: helper_for_field(ctx, rep, f) for f in fields}
+    r03_2(ctx, rep, helpers, rid="R11.1")
+    r03_3(ctx, rep, pairs=SIBLINGS[:2], rid="R11.2")
+    r11_3(ctx, rep)
+    rep.rule("R11.3b")
+    check_strictly_above(ctx, rep, analyse_shading(ctx))
+    r11_4(ctx, rep, helpers)
